@@ -192,6 +192,49 @@ def run(ctx):
     else:
         ctx.violation("R16f", fl, "FibonacciHeap._consolidate", co.node, "consolidate keeps order",
                       "_consolidate no longer (links the larger of two equal-degree roots under the smaller and selects the smallest root as _min)")
+    # who may write the minimum pointer
+    allowed = {"__init__", "clear", "push", "decrease_key", "_extract_min", "_consolidate", "remove", "__add__"}
+    for name, (kind, v) in sorted(m.attrs[q].items()):
+        if kind != "def":
+            continue
+        stores = [s_ for s_ in walk_no_nested(v.node) if isinstance(s_, ast.Assign) and any(self_attr(t) == "_min" for t in s_.targets)]
+        if not stores:
+            continue
+        if name not in allowed:
+            ctx.violation("R16f", fl, f"FibonacciHeap.{name}", stores[0], f"{name} writes _min",
+                          f"{name} assigns self._min (`{norm(stores[0])}`); only push, decrease_key, _extract_min, _consolidate, "
+                          f"clear and remove (to target the node it extracts) maintain the minimum pointer")
+        if name == "remove":
+            ext_calls = [c for c in walk_no_nested(v.node) if isinstance(c, ast.Call) and self_attr(c.func) == "_extract_min"]
+            late = [s_ for s_ in stores if ext_calls and s_.lineno > ext_calls[0].lineno]
+            node_p = func_params(v.node)[1]
+            wrong = [s_ for s_ in stores if dotted(s_.value) != node_p]
+            if late or wrong or len(stores) != 1:
+                bad_ = (late or wrong or stores)[0]
+                ctx.violation("R16f", fl, "FibonacciHeap.remove", bad_, "remove leaves min to extract",
+                              f"remove() assigns self._min (`{norm(bad_)}`) other than pointing it at the node to extract: after "
+                              f"_extract_min() consolidation decides the minimum; restoring an older pointer can leave _min on a "
+                              f"node that is no longer a root (ties on the minimum key)")
+            else:
+                ctx.proved("R16f", fl, "FibonacciHeap.remove", stores[0], "remove leaves min to extract",
+                           "remove points _min at the node and lets _extract_min/_consolidate re-establish the minimum")
+    # degree table of _consolidate
+    tabs = [s_ for s_ in walk_no_nested(co.node) if isinstance(s_, ast.Assign) and isinstance(s_.value, ast.BinOp)
+            and isinstance(s_.value.op, ast.Mult) and isinstance(s_.value.left, ast.List)]
+    if tabs:
+        size = tabs[0].value.right
+        stxt = ast.unparse(size).replace(" ", "")
+        linear = stxt == "self._n" or (isinstance(size, ast.BinOp) and isinstance(size.op, ast.Add) and "self._n" in stxt
+                                       and "bit_length" not in stxt and "log" not in stxt)
+        if linear:
+            ctx.proved("R16f", fl, "FibonacciHeap._consolidate", tabs[0], "degree table size", f"degree table has {stxt} slots (a degree never exceeds the node count)")
+        elif "bit_length" in stxt or "log2" in stxt:
+            ctx.violation("R16f", fl, "FibonacciHeap._consolidate", tabs[0], "degree table size",
+                          f"the degree table has only `{stxt}` slots - the binomial-tree bound. After cuts a Fibonacci tree of "
+                          f"degree d can have as few as F(d+2) < 2**d nodes, so a root's degree can exceed log2(n): IndexError "
+                          f"in the middle of an extraction, leaving the size counter off by one")
+        else:
+            ctx.inconclusive("R16f", fl, "FibonacciHeap._consolidate", tabs[0], "degree table size", f"cannot judge the degree-table bound `{stxt}`")
     ctx.rule("R16g", "HeapNode order: a deleted node sorts before every live node, otherwise by key; decrease_key rejects increases")
     hq = m.need_class("HeapNode")
     lt = m.method(hq, "__lt__")
